@@ -34,6 +34,7 @@ def build(bdir):
 def run_driver(prog, tierc, kid, parts, part, trace, only=None):
     e = dict(os.environ)
     e.update(vlib.ASAN_ENV)
+    e["ASAN_OPTIONS"] += ":symbolize=0"      # the report itself is not used, only the fact that the run died
     if only:
         e["KD_ONLY"] = only
     try:
@@ -173,6 +174,7 @@ def run(pid, tier):
 
 def replay(pid, path):
     """re-run the groups recorded in a replay file on the current working tree"""
+    path = os.path.abspath(path)
     bdir = vlib.scratch(pid + "_replay")
     verdict = vlib.Verdict(pid)
     try:
